@@ -34,12 +34,15 @@ theorem c10_deps_iff {cfg : Config} (hwf : WF cfg) {i : Nat} {T : Target} (hT : 
     · have hn := hwf.normal U (List.mem_of_getElem? hU)
       exact ⟨U, hU, (key U hU).mp hs, Or.inl ((hit_iff hn _).mp hh)⟩
     · have hn := hwf.normal U (List.mem_of_getElem? hU)
-      exact ⟨U, hU, (key U hU).mp hs, Or.inr ⟨u, hu, (hit_iff hn _).mp hh⟩⟩
+      exact ⟨U, hU, (key U hU).mp hs, Or.inr ⟨u, hu, by
+        have := (hit_slashQ (k := U.path) (by rw [dirOf_normal hn]; exact hn) u).mp hh
+        rwa [dirOf_normal hn] at this⟩⟩
   · rintro ⟨U, hU, hji, hd⟩
     have hn := hwf.normal U (List.mem_of_getElem? hU)
     rcases hd with hw | ⟨u, hu, hw⟩
     · exact Or.inl ⟨U, hU, (hit_iff hn _).mpr hw, (key U hU).mpr hji⟩
-    · exact Or.inr ⟨u, hu, U, hU, (hit_iff hn _).mpr hw, (key U hU).mpr hji⟩
+    · exact Or.inr ⟨u, hu, U, hU, (hit_slashQ (k := U.path) (by rw [dirOf_normal hn]; exact hn) u).mpr
+        (by rw [dirOf_normal hn]; exact hw), (key U hU).mpr hji⟩
 
 /-- **C10.** Each adjacency entry is strictly increasing: no duplicate edge is ever stored, hence
 `target render` emits each edge once. -/
@@ -72,6 +75,53 @@ theorem c10_label_level {cfg cfg' : Config} (hwf : WF cfg) (hwf' : WF cfg')
   · rintro ⟨V, hV, _, hd⟩
     rw [hU'] at hV; cases hV
     exact ⟨U, hU, hji, hd⟩
+
+/-! ## Target paths written with a trailing separator -/
+
+/-- SPEC for target paths that may be written with one trailing separator (`"core/"` names the
+directory `core`): `T` depends on `U` when `U`'s directory encloses `T`'s directory, or equals or
+encloses one of `T`'s `uses` entries. On normal paths this is `DependsOn`. -/
+def DependsOnD (T U : Target) : Prop :=
+  Within (dirOf U.path) (dirOf T.path) ∨ ∃ u ∈ T.uses, Within (dirOf U.path) u
+
+/-- **C10 (trailing separators).** The main theorem for every configuration whose target paths
+name pairwise different normal directories, each written with or without one trailing separator;
+`uses` entries are arbitrary byte strings. -/
+theorem c10_deps_iff_dir {cfg : Config} (hwf : WFD cfg) {i : Nat} {T : Target} (hT : cfg[i]? = some T)
+    (j : Nat) :
+    j ∈ deps cfg i ↔ ∃ U, cfg[j]? = some U ∧ j ≠ i ∧ DependsOnD T U := by
+  have hnd := hwf.nodupPath
+  have key : ∀ U, cfg[j]? = some U → (U.path ≠ T.path ↔ j ≠ i) := by
+    intro U hU
+    constructor
+    · intro hne hji; subst hji; rw [hT] at hU; cases hU; exact hne rfl
+    · intro hji heq
+      have h1 := indexOf?_of_nodup hnd hU
+      have h2 := indexOf?_of_nodup hnd hT
+      rw [heq, h2] at h1
+      exact hji (Option.some.inj h1).symm
+  -- different targets name different directories
+  have dirne : ∀ U, cfg[j]? = some U → j ≠ i → dirOf U.path ≠ dirOf T.path := by
+    intro U hU hji heq
+    exact hji (nodup_map_getElem_inj hwf.nodup hU hT heq)
+  simp only [deps, hT, mem_sortDedup, List.mem_append, List.mem_flatMap, mem_hitNodes hnd, DependsOnD]
+  constructor
+  · rintro (⟨U, hU, hh, hs⟩ | ⟨u, hu, U, hU, hh, hs⟩)
+    · have hn := hwf.normal U (List.mem_of_getElem? hU)
+      have hji := (key U hU).mp hs
+      exact ⟨U, hU, hji, Or.inl ((hit_nest hn (dirne U hU hji)).mp hh)⟩
+    · have hn := hwf.normal U (List.mem_of_getElem? hU)
+      exact ⟨U, hU, (key U hU).mp hs, Or.inr ⟨u, hu, (hit_slashQ hn u).mp hh⟩⟩
+  · rintro ⟨U, hU, hji, hd⟩
+    have hn := hwf.normal U (List.mem_of_getElem? hU)
+    rcases hd with hw | ⟨u, hu, hw⟩
+    · exact Or.inl ⟨U, hU, (hit_nest hn (dirne U hU hji)).mpr hw, (key U hU).mpr hji⟩
+    · exact Or.inr ⟨u, hu, U, hU, (hit_slashQ hn u).mpr hw, (key U hU).mpr hji⟩
+
+theorem c10_deps_lt_dir {cfg : Config} (hwf : WFD cfg) {i j : Nat} {T : Target} (hT : cfg[i]? = some T)
+    (h : j ∈ deps cfg i) : j < cfg.length := by
+  obtain ⟨U, hU, _⟩ := (c10_deps_iff_dir hwf hT j).mp h
+  exact (List.getElem?_eq_some_iff.mp hU).1
 
 /-! ## Non-vacuity: a concrete configuration with prefix-sharing names, nesting and `uses` -/
 
@@ -137,5 +187,61 @@ oracle, and one that fails the oracle differs from the proved behaviour. -/
 theorem c10_model_meets_oracle {cfg : Config} (hwf : WF cfg) {i : Nat} {T : Target}
     (hT : cfg[i]? = some T) (j : Nat) : j ∈ deps cfg i ↔ j ∈ specDeps cfg i := by
   rw [c10_deps_iff hwf hT, mem_specDeps hT]
+
+/-! ### the same for target paths written with a trailing separator -/
+
+theorem dependsOnDB_iff (T U : Target) : dependsOnDB T U = true ↔ DependsOnD T U := by
+  simp [dependsOnDB, DependsOnD, withinB_iff, List.any_eq_true]
+
+theorem wfDB_iff (cfg : Config) : wfDB cfg = true ↔ WFD cfg := by
+  have hdup : ∀ c : Config, hasDupDir c = false ↔ (c.map (fun t => dirOf t.path)).Nodup := by
+    intro c
+    induction c with
+    | nil => simp [hasDupDir]
+    | cons t ts ih =>
+      simp only [hasDupDir, Bool.or_eq_false_iff, ih, List.map_cons, List.nodup_cons,
+        List.mem_map, List.any_eq_false, decide_eq_true_eq]
+      constructor
+      · rintro ⟨h1, h2⟩
+        exact ⟨fun ⟨u, hu, hup⟩ => h1 u hu hup, h2⟩
+      · rintro ⟨h1, h2⟩
+        exact ⟨fun u hu hup => h1 ⟨u, hu, hup⟩, h2⟩
+  simp only [wfDB, Bool.and_eq_true, Bool.not_eq_true', hdup, List.all_eq_true, normalB_iff]
+  exact ⟨fun ⟨a, b⟩ => ⟨a, b⟩, fun ⟨a, b⟩ => ⟨a, b⟩⟩
+
+theorem mem_specDepsD {cfg : Config} {i : Nat} {T : Target} (hT : cfg[i]? = some T) (j : Nat) :
+    j ∈ specDepsD cfg i ↔ ∃ U, cfg[j]? = some U ∧ j ≠ i ∧ DependsOnD T U := by
+  simp only [specDepsD, hT, List.mem_filter, List.mem_range, Bool.and_eq_true, bne_iff_ne, ne_eq]
+  constructor
+  · rintro ⟨hj, hne, hd⟩
+    obtain ⟨U, hU⟩ : ∃ U, cfg[j]? = some U := ⟨cfg[j], List.getElem?_eq_getElem hj⟩
+    rw [hU] at hd
+    exact ⟨U, hU, hne, (dependsOnDB_iff T U).mp hd⟩
+  · rintro ⟨U, hU, hne, hd⟩
+    refine ⟨(List.getElem?_eq_some_iff.mp hU).1, hne, ?_⟩
+    rw [hU]; exact (dependsOnDB_iff T U).mpr hd
+
+/-- **C10 (model meets oracle, trailing separators).** -/
+theorem c10_model_meets_oracle_dir {cfg : Config} (hwf : WFD cfg) {i : Nat} {T : Target}
+    (hT : cfg[i]? = some T) (j : Nat) : j ∈ deps cfg i ↔ j ∈ specDepsD cfg i := by
+  rw [c10_deps_iff_dir hwf hT, mem_specDepsD hT]
+
+/-- on normal target paths the two specifications coincide -/
+theorem dependsOnD_normal {T U : Target} (hT : Normal T.path) (hU : Normal U.path) :
+    DependsOnD T U ↔ DependsOn T U := by
+  simp [DependsOnD, DependsOn, dirOf_normal hT, dirOf_normal hU]
+
+/-- `core/` (declared with a trailing separator), `app` using `core`, `tool` using `core/include`,
+`core/sub` nested in it -/
+def exCfgSlash : Config :=
+  [ { path := [99,111,114,101,47], uses := [], ignores := [] },
+    { path := [97,112,112], uses := [[99,111,114,101]], ignores := [] },
+    { path := [116,111,111,108], uses := [[99,111,114,101,47,105,110,99,108,117,100,101]], ignores := [] },
+    { path := [99,111,114,101,47,115,117,98], uses := [], ignores := [] } ]
+
+example : wfDB exCfgSlash = true ∧ wfB exCfgSlash = false := by decide
+example : deps exCfgSlash 0 = [] ∧ deps exCfgSlash 1 = [0] ∧ deps exCfgSlash 2 = [0] ∧ deps exCfgSlash 3 = [0] := by decide
+/-- what the lookup of `uses: ["core"]` found before the `fix:` commit (entry as written): nothing -/
+example : hit [99,111,114,101,47] [99,111,114,101] = false ∧ hit [99,111,114,101,47] (slashQ [99,111,114,101]) = true := by decide
 
 end Monorail
